@@ -30,6 +30,7 @@ type World struct {
 	pures     map[string]*PureDecl
 	specTypes map[string][]Binder
 	axioms    []Clause
+	axiomPkg  []string
 	fnByKey   map[string]*ssa.Function
 	modPath   string
 	inlinePkg map[string]bool
@@ -76,6 +77,7 @@ func loadWorld(repo string, extraPatterns []string) (*World, error) {
 	w.prog = prog
 	w.modPath = "github.com/free5gc/go-upf"
 	w.inlinePkg["encoding/binary"] = true
+	w.inlinePkg["github.com/wmnsk/go-pfcp/message"] = true
 	for fn := range ssautil.AllFunctions(prog) {
 		if fn.Pkg == nil || fn.Synthetic != "" && fn.Blocks == nil {
 			continue
@@ -131,6 +133,9 @@ func (w *World) addSpec(sf *SpecFile) {
 		w.specTypes[n] = t
 	}
 	w.axioms = append(w.axioms, sf.Axioms...)
+	for range sf.Axioms {
+		w.axiomPkg = append(w.axiomPkg, sf.PkgName)
+	}
 	if w.determ == nil {
 		w.determ = map[string]bool{}
 	}
